@@ -408,7 +408,7 @@ func (c *c09Ctx) prodList(p *evidence.Part, list []int) bool {
 func c09Alphabet() map[string]any {
 	return map[string]any{
 		"address_atoms": c09Atoms, "proto_port": c09PPs, "hijack": c09Hijacks, "outbounds": c09Obs,
-		"rules": c09NRules,
+		"rules":       c09NRules,
 		"query_names": c09Names, "query_ipv4": c09V4s, "query_ipv6": c09V6s, "query_proto": []string{"tcp", "udp"}, "query_port": c09Ports,
 		"queries":         len(c09Names) * len(c09V4s) * len(c09V6s) * 2 * len(c09Ports),
 		"not_in_alphabet": "port 0 in rules (code treats start port 0 as any port; undocumented), IDNA/non-ASCII names, geoip:/geosite: (need external databases), names with several trailing dots",
